@@ -191,9 +191,12 @@ def build_net(src, sinks, kinds):
             vr[v] = {Cores: 2}
             expected.add((chip, 6 + 1 + i, v))
             expected.add((chip, 6 + 2 + i, v))
-        elif kind == "endpoint":
+        elif kind in ("endpoint", "endpoint0"):
             vr[v] = {}
-            allocations[v] = {}
+            # a device vertex may be declared with zero cores: the endpoint
+            # constraint still decides where its packets go
+            allocations[v] = {} if kind == "endpoint" else \
+                {Cores: slice(0, 0)}
             constraints.append(RouteEndpointConstraint(v, Routes(2)))
             expected.add((chip, 2, v))
         else:
@@ -201,6 +204,28 @@ def build_net(src, sinks, kinds):
             expected.add((chip, None, v))
     net = Net("s", sink_vs)
     return vr, [net], constraints, placements, allocations, expected
+
+
+def build_two_nets(src, sinks, kinds):
+    """Two nets in one route() call whose sources share a chip and whose
+    sinks sit on the same chips (different vertices, different cores)."""
+    from rig.netlist import Net
+    from rig.place_and_route import Cores
+    vr, nets, cons, pl, al, exp = build_net(src, sinks, kinds)
+    pl["s2"] = tuple(src)
+    al["s2"] = {Cores: slice(10, 11)}
+    vr["s2"] = {Cores: 1}
+    exp2 = set()
+    sv = []
+    for i, chip in enumerate(sinks):
+        v = "u%d" % i
+        pl[v] = tuple(chip)
+        al[v] = {Cores: slice(12 + i, 13 + i)}
+        vr[v] = {Cores: 1}
+        sv.append(v)
+        exp2.add((tuple(chip), 6 + 12 + i, v))
+    nets.append(Net("s2", sv))
+    return vr, nets, cons, pl, al, [exp, exp2]
 
 
 def run_case(case, acc, bound, count=True):
@@ -220,8 +245,13 @@ def run_case(case, acc, bound, count=True):
     def run(ch):
         fr = FakeRandom(ch, menu=3)
         geometry.random = rutils.random = fr
-        vr, nets, cons, pl, al, expected = build_net(
-            case["src"], case["sinks"], case["kinds"])
+        if case.get("two_nets"):
+            vr, nets, cons, pl, al, expected_list = build_two_nets(
+                case["src"], case["sinks"], case["kinds"])
+        else:
+            vr, nets, cons, pl, al, expected = build_net(
+                case["src"], case["sinks"], case["kinds"])
+            expected_list = [expected]
         acc.evaluations += 1
         acc.add("executions_" + case.get("_fam", "x"))
         try:
@@ -252,29 +282,31 @@ def run_case(case, acc, bound, count=True):
             acc.violation(dict(kind="nets"), c, "routes for wrong net set",
                           size=csize(case))
             return
-        root = routes[nets[0]]
-        if not isinstance(root, RoutingTree) or \
-                tuple(root.chip) != tuple(case["src"]):
-            acc.violation(dict(kind="root"), c,
-                          "tree is rooted at %r, source is on %r"
-                          % (getattr(root, "chip", root), case["src"]),
-                          size=csize(case))
-            return
-        err, leaves = walk_tree(root, m,
-                                lambda o: isinstance(o, RoutingTree))
-        if err:
-            kind = ("twice" if "twice" in err else
-                    "dead" if "dead" in err else "edge")
-            acc.violation(dict(kind="tree_" + kind), c, err + "\n" +
-                          describe(case), size=csize(case))
-            return
-        got = set(leaves)
-        if got != expected:
-            acc.violation(dict(kind="leaves"), c,
-                          "leaves %r, expected %r" % (sorted(got, key=repr),
-                                                      sorted(expected,
-                                                             key=repr)),
-                          size=csize(case))
+        for net, expected in zip(nets, expected_list):
+            root = routes[net]
+            if not isinstance(root, RoutingTree) or \
+                    tuple(root.chip) != tuple(case["src"]):
+                acc.violation(dict(kind="root"), c,
+                              "tree is rooted at %r, source is on %r"
+                              % (getattr(root, "chip", root), case["src"]),
+                              size=csize(case))
+                return
+            err, leaves = walk_tree(root, m,
+                                    lambda o: isinstance(o, RoutingTree))
+            if err:
+                kind = ("twice" if "twice" in err else
+                        "dead" if "dead" in err else "edge")
+                acc.violation(dict(kind="tree_" + kind), c, err + "\n" +
+                              describe(case), size=csize(case))
+                return
+            got = set(leaves)
+            if got != expected:
+                acc.violation(dict(kind="leaves"), c,
+                              "net from %r: leaves %r, expected %r"
+                              % (net.source, sorted(got, key=repr),
+                                 sorted(expected, key=repr)),
+                              size=csize(case))
+                return
     try:
         n = explore(run, bound=bound, budget=400)
     finally:
@@ -414,7 +446,7 @@ def run_tf(fam, k, tier, acc):
 def run_leaves(tier, acc):
     w = h = 2
     m = M(w, h)
-    kinds_all = SINK_KINDS + ("self", "dup")
+    kinds_all = SINK_KINDS + ("self", "dup", "endpoint0")
     for src in m.chips:
         for ns in (1, 2, 3):
             for sinks in itertools.product(m.chips, repeat=ns):
@@ -436,6 +468,8 @@ def run_leaves(tier, acc):
                                 _connected=True)
                     acc.nontrivial += 1
                     run_case(case, acc, 0)
+                    if ns <= 2:
+                        run_case(dict(case, two_nets=True), acc, 0)
     acc.sample(dict(fam="leaves", kinds=kinds_all))
 
 
